@@ -1036,11 +1036,19 @@ impl TypeEntry {
                         let variant_name =
                             format_ident!("{}", variant.ident_name.as_ref().unwrap());
                         let ii = (0..type_ids.len()).map(syn::Index::from);
+                        // A single-item tuple variant is declared as
+                        // `Variant((T,))` (see output_variant): its one field
+                        // is the tuple itself.
+                        let variant_args = if type_ids.len() != 1 {
+                            quote! { #( value.#ii, )* }
+                        } else {
+                            quote! { value }
+                        };
                         Some(quote! {
                             impl ::std::convert::From<#variant_type_ident> for #type_name {
                                 fn from(value: #variant_type_ident) -> Self {
                                     Self::#variant_name(
-                                        #( value.#ii, )*
+                                        #variant_args
                                     )
                                 }
                             }
